@@ -207,7 +207,7 @@ func c16KeyValueContext(c Case) *Failure {
 }
 
 func runC16(r *Run) {
-	r.Rule("every method (12 methods, .decimal with 41 precision/scale combinations incl. every boundary and out-of-range argument; thorough: the whole domain p in 1..1000 x s in -1000..1000) x every input kind x a boundary grid of 48 numeric values (int32/int64 limits +-1, +-0.25/0.4/0.5/0.75 around the int32 limits, rounding ties, 2^53, 2^63 as double and neighbours, tiny/huge) each as float64, json.Number and string, 17 further json.Number spellings, 48 strings (numeric forms, boolean words, blanks, Infinity/NaN), containers; direct and after [*]; both modes, verbose and silent; oracle: reference model with math/big (accepted kinds, suppressible error otherwise, correctly rounded results, mandatory errors outside int32/int64/precision-scale/finite); .string() converts back with the matching method; keyvalue triples per member with ids equal within an object, distinct across objects, stable over three executions; non-trivial = reference yields items or an error")
+	r.Rule("every method (12 methods, .decimal with 41 precision/scale combinations incl. every boundary and out-of-range argument; scales -312..-296 on 13 values next to the largest double; thorough: the whole domain p in 1..1000 x s in -1000..1000) x every input kind x a boundary grid of 48 numeric values (int32/int64 limits +-1, +-0.25/0.4/0.5/0.75 around the int32 limits, rounding ties, 2^53, 2^63 as double and neighbours, tiny/huge) each as float64, json.Number and string, 17 further json.Number spellings, 48 strings (numeric forms, boolean words, blanks, Infinity/NaN), containers; direct and after [*]; both modes, verbose and silent; oracle: reference model with math/big (accepted kinds, suppressible error otherwise, correctly rounded results, mandatory errors outside int32/int64/precision-scale/finite); .string() converts back with the matching method; keyvalue triples per member with ids equal within an object, distinct across objects, stable over three executions; non-trivial = reference yields items or an error")
 	values := c16Values(r.Thorough())
 	paths := c16MethodPaths()
 	r.Bound("values", len(values))
@@ -221,6 +221,20 @@ func runC16(r *Run) {
 	docs := makeDocs([]any{nil})
 	refSweep(r, "methods-vs-reference", paths, docs, cfgs)
 
+	// rounding at a negative scale next to the largest doubles (the rounded value may leave the finite range)
+	var hp []Path
+	for _, pp := range []int64{1, 2, 17, 309, 1000} {
+		for sc := int64(-312); sc <= -296; sc++ {
+			pp, sc := pp, sc
+			hp = append(hp, Path{E: eVar("a", sDecimal(&pp, &sc))}, Path{Strict: true, E: eVar("a", sDecimal(&pp, &sc))})
+		}
+	}
+	var hcfgs []sweepCfg
+	for _, v := range []string{"f:1.5e+308", "f:-1.5e+308", "f:1.7976931348623157e+308", "f:9.9e+307", "f:1e+308", "f:4e+307", "f:5e+307", "f:1.4999e+308", "n:1.5e308", "n:17e307", "s:1.5e308", "f:9.5e+303", "f:1.797e+308"} {
+		hcfgs = append(hcfgs, sweepCfg{Num: "float64", Vars: map[string]string{"a": v}}, sweepCfg{Num: "float64", Vars: map[string]string{"a": v}, Silent: true})
+	}
+	r.Bound("huge_value_decimal_paths", len(hp))
+	refSweep(r, "decimal-negative-scale-near-the-largest-double", hp, docs, hcfgs)
 	if r.Thorough() {
 		// the whole .decimal(p,s) domain
 		vals := []string{"f:0", "f:1", "f:-1", "f:9.99", "f:99.5", "f:0.05", "f:123456.789", "f:1e+15", "f:1e+21", "f:1e+308", "f:5e-324", "f:2.5"}
